@@ -23,7 +23,8 @@ Print Assumptions C02_layouts_symmetric.
        responses through the client decoder) --------------------------------------------------- *)
 Theorem C02_roundtrip : forall o m,
   abs o = Some m -> mem_cls (class_of o) conforming_encode = true -> conforming_decode m = true ->
-  exists b o' d, py_pdu o = Ok b /\ py_decode (msg_is_request m) b = Ok o' /\ abs o' = Some d /\ msg_matches m d = true.
+  exists b o' d, py_pdu o = Ok b /\ py_decode (msg_is_request m) b = Ok o' /\ class_of o' = spec_class m /\
+                 abs o' = Some d /\ msg_matches m d = true.
 Proof. exact roundtrip. Qed.
 Print Assumptions C02_roundtrip.
 
@@ -63,7 +64,8 @@ Print Assumptions C02_decode_fresh.
 (* --- where the pinned code violates the property ------------------------------------------------ *)
 Definition C02_full_statement : Prop :=
   (forall o m, abs o = Some m ->
-     exists b o' d, py_pdu o = Ok b /\ py_decode (msg_is_request m) b = Ok o' /\ abs o' = Some d /\ msg_matches m d = true) /\
+     exists b o' d, py_pdu o = Ok b /\ py_decode (msg_is_request m) b = Ok o' /\ class_of o' = spec_class m /\
+                    abs o' = Some d /\ msg_matches m d = true) /\
   (forall o data o', wf_shape o = true -> decode_into o data = Ok o' ->
      exists f, decode_into (fresh_like o) data = Ok f /\ blank f = blank o').
 
